@@ -412,6 +412,116 @@ def run_range(ctx, exe):
 
 
 # ------------------------------------------------------------------------------------
+# one RangeParser object used several times (mode H)
+# ------------------------------------------------------------------------------------
+
+def hist_cmds(hist):
+    cmds = ["hnew"]
+    for op in hist:
+        if op["op"] == "parse":
+            cmds.append("hparse " + render_range(op["x"]))
+        else:
+            cmds.append("hadd %d %d %d" % tuple(op["x"]))
+        cmds.append("hiter %d" % BUDGET)
+    return cmds
+
+
+def op_text(op):
+    return "Parse(\"%s\")" % render_range(op["x"]) if op["op"] == "parse" else "Add(%d,%d,%d)" % tuple(op["x"])
+
+
+def judge_hist(ctx, hist, out, crash):
+    """out: result lines per command of hist_cmds(hist).  Returns the set of Parse readings
+    ('A' append / 'R' replace) the real object is consistent with, or None after a violation."""
+    rep = {"kind": "hist", "h": hist, "cmds": hist_cmds(hist)}
+    calls = " ; ".join(op_text(o) for o in hist)
+    if crash is not None:
+        ctx.violation("RangeParser:history:crash", "driver aborted during %s: ... %s" % (calls, crash[-300:]), rep)
+        return None
+    viable = {"A", "R"}
+    for k, op in enumerate(hist):
+        res, it = out[1 + 2 * k], out[2 + 2 * k]
+        accepted = first(res, "accepted") is not None
+        rejected = first(res, "rejected") is not None
+        if accepted == rejected:
+            raise vlib.InfraError("driver protocol error in history %s: %s" % (calls, res))
+        nth = "first" if k == 0 else "later"
+        if op["op"] == "add":
+            b, e, st = op["x"]
+            cls = "zero-stride" if st == 0 else ("non-closed" if op["verdict"] == "either" else
+                                                 ("negative-stride" if st < 0 else "positive-stride"))
+            who = "RangeParser:Add:" + cls
+        else:
+            cls = range_cause(op["x"]) if op["verdict"] == "reject" else stride_class(op["x"])
+            who = "RangeParser:Parse-%s:%s" % (nth, cls)
+        nonterm = first(it, "nonterm")
+        seq = first(it, "seq")
+        if nonterm is not None:
+            ctx.violation(who + ":nonterminating", "after %s the object cannot be iterated to the end within %d steps (%s ...)" % (
+                calls if k == len(hist) - 1 else " ; ".join(op_text(o) for o in hist[:k + 1]), BUDGET, nonterm), rep)
+            return None
+        if op["verdict"] == "reject" and accepted:
+            ctx.violation(who + ":accepted", "%s is accepted (object then enumerates %s) in %s" % (op_text(op), seq, calls), rep)
+            return None
+        if op["verdict"] == "accept" and rejected:
+            ctx.violation(who + ":rejected", "%s is rejected: %s" % (op_text(op), first(res, "rejected")), rep)
+            return None
+        got = ints(seq)
+        if not op["dirty"]:
+            ok = {v for v in viable if got == (op["seqA"] if v == "A" else op["seqR"])}
+            if not ok:
+                ctx.violation(who + ":wrong-sequence",
+                              "after %s the object enumerates %s; held blocks denote %s (Parse appends)%s" % (
+                                  " ; ".join(op_text(o) for o in hist[:k + 1]), got, op["seqA"],
+                                  "" if op["seqA"] == op["seqR"] else " or %s (Parse replaces)" % op["seqR"]), rep)
+                return None
+            viable = ok
+        # print / parse into a fresh object: relative to what the object itself enumerates
+        reseq = first(it, "reseq")
+        if reseq is None or ints(reseq) != got:
+            ctx.violation(who + ":print-parse", "after %s the object enumerates %s but prints as '%s', which a fresh object reads as %s" % (
+                " ; ".join(op_text(o) for o in hist[:k + 1]), got, first(it, "printed"),
+                reseq if reseq is not None else [ln for ln in it if ln.startswith("re")]), rep)
+            return None
+    return viable
+
+
+def run_range_hist(ctx, exe):
+    mod = "MCRangeHistQuick" if ctx.quick else "MCRangeHistThorough"
+    res = vlib.tlc("rangeglob", mod, cfg=mod + ".cfg", timeout=1700)
+    vlib.tlc_must_hold(res, "RangeHist: one object, several Parse/Add calls: terminates, enumerates the held blocks, "
+                            "Add rejects what Parse rejects, print/parse into a fresh object preserves the sequence")
+    ctx.add_tlc(mod, res)
+    hists = [r["h"] for r in res.records if isinstance(r, dict) and "h" in r]
+    if not hists:
+        raise vlib.InfraError("no RangeParser histories exported")
+    items = [(i, hist_cmds(hh)) for i, hh in enumerate(hists)]
+    results, crashes = vlib.run_items(exe, items)
+    readings = {"A": 0, "R": 0}
+    for i, hh in enumerate(hists):
+        ctx.traces += 1
+        ctx.nontriv(("hist", str([(o["op"], str(o["x"])) for o in hh])))
+        v = judge_hist(ctx, hh, results.get(i), crashes.get(i))
+        if v is not None and len(v) == 1:
+            readings[next(iter(v))] += 1
+    if readings["A"] and readings["R"]:
+        ctx.violation("RangeParser:Parse-later:inconsistent", "a second Parse appends in %d histories and replaces in %d" % (
+            readings["A"], readings["R"]), {"kind": "note", "readings": readings})
+    ctx.extra["second_parse_reading"] = "appends" if readings["A"] else ("replaces" if readings["R"] else "undetermined")
+    ctx.extra["range_histories"] = len(hists)
+    for hh in hists:
+        if [o["op"] for o in hh[:2]] == ["parse", "add"] and hh[0]["verdict"] == "accept" and hh[1]["verdict"] == "accept" \
+                and hh[1]["x"][2] < 0:
+            ctx.sample({"range_history": [{"call": op_text(o), "then_enumerates": o["seqA"]} for o in hh]})
+            break
+    res = vlib.tlc("rangeglob", "MCRangeHistOrig", cfg="MCRangeHistOrig.cfg", timeout=600)
+    ctx.add_tlc("MCRangeHistOrig", res)
+    if res.ok:
+        raise vlib.InfraError("MCRangeHistOrig: the transcription of the unvalidated Add is not refuted - model lost its teeth")
+    ctx.extra.setdefault("original_code_refuted_in_model", []).append("MCRangeHistOrig: %s" % res.violation)
+
+
+# ------------------------------------------------------------------------------------
 # index sets
 # ------------------------------------------------------------------------------------
 
@@ -497,6 +607,11 @@ def replay(ctx, exe):
         print("\n".join(results.get(obj["p"], [[crashes.get(obj["p"])]])[0]))
         if all(e is not None for _, e in subjects):
             judge_glob(ctx, obj["p"], subjects, results.get(obj["p"]), crashes.get(obj["p"]))
+    elif kind == "hist":
+        results, crashes = vlib.run_items(exe, [(0, obj["cmds"])])
+        for res in results.get(0, []):
+            print("\n".join(res))
+        judge_hist(ctx, obj["h"], results.get(0), crashes.get(0))
     elif kind == "range":
         results, crashes = vlib.run_items(exe, [(0, obj["cmds"])])
         print("\n".join(results.get(0, [[crashes.get(0)]])[0]))
@@ -528,6 +643,7 @@ def run(ctx):
     run_glob(ctx, exe)
     run_select(ctx, exe)
     run_range(ctx, exe)
+    run_range_hist(ctx, exe)
     run_index(ctx, exe)
     run_glob_trace(ctx, exe)
     ctx.exhaustive = False
